@@ -212,11 +212,16 @@ def create_flow_instance(
 
 def add_new_flow_instance(state: State, flow_state: FlowState) -> FlowState:
     """Add a new flow instance to the current state."""
-    if flow_state.uid in state.flow_states:
-        # (the running instance would be overwritten while its heads stay registered)
-        raise ColangRuntimeError(
-            f"A flow instance with the uid '{flow_state.uid}' exists already"
-        )
+    existing_flow_state = state.flow_states.get(flow_state.uid)
+    if existing_flow_state is not None:
+        if not _is_done_flow(existing_flow_state):
+            # (the running instance would be overwritten while its heads stay registered)
+            raise ColangRuntimeError(
+                f"A flow instance with the uid '{flow_state.uid}' exists already"
+            )
+        # An instance that has ended is only kept until it is cleaned up, it must not
+        # block its uid until then
+        state.flow_id_states[existing_flow_state.flow_id].remove(existing_flow_state)
 
     # Update state structures
     state.flow_states.update({flow_state.uid: flow_state})
